@@ -16,7 +16,7 @@ Require Import String.
 Require Import Arith Lia List Bool ZArith QArith Qcanon Permutation.
 From TK Require Import Mat_Sums Mat_Core Mat_Qc Mat_EigSelect EigSelect Mat_EigSelect_Tie
                        Lle_Model Lle_Spec Lle_Proof_Triplets Lle_Proof_Lle Lle_Proof_Ltsa
-                       Lle_Proof_Hlle Lle_Proof_Embed Lle_Proof_Gs Lle_Proof_GsQc Lle_Proof_KyFan Lle_Proof_Flat Lle_Proof_Run.
+                       Lle_Proof_Hlle Lle_Proof_Embed Lle_Proof_Gs Lle_Proof_GsQc Lle_Proof_KyFan Lle_Proof_Flat Lle_Proof_Run Lle_Loop HlleLoop Lle_Proof_Loop.
 Import ListNotations.
 Local Open Scope nat_scope.
 
@@ -264,6 +264,27 @@ Proof.
   - apply sqrt_ok_by_compute. vm_compute. reflexivity.
   - apply vlist_eqb_ok. vm_compute. reflexivity.
 Qed.
+
+(* T-hlle: the product loop of hessian_weight_matrix as extracted from the CURRENT source
+   (gen/HlleLoop.v: loop bounds, written column, source columns, update of ct, size of Yi as integer-linear
+   forms), run by a generic evaluator: it is one of the two tables this development knows, and the
+   evaluator reproduces the hand model on them *)
+Theorem C08_hlle_loop_model :
+  forall (L : hlle_loop) (b : bool) (d : nat),
+    loop_kind L = Some b ->
+    loop_writes L d = map w5_of (hlle_writes b d) /\ loop_ncols L d = Z.of_nat (hlle_ncols d).
+Proof. exact loop_writes_model. Qed.
+Print Assumptions C08_hlle_loop_model.
+
+Theorem C08_hlle_loop_table :
+  (loop_kind hlle_loop_src = Some false /\
+   forall d, map w5_col (loop_writes hlle_loop_src d) = map Z.of_nat (seq (1 + d) (hlle_dp d)) /\
+             (forall w, In w (loop_writes hlle_loop_src d) -> (w5_col w < loop_ncols hlle_loop_src d)%Z))
+  \/
+  (loop_kind hlle_loop_src = Some true /\
+   exists w, In w (loop_writes hlle_loop_src 3) /\ (loop_ncols hlle_loop_src 3 <= w5_col w)%Z).
+Proof. exact hlle_loop_table. Qed.
+Print Assumptions C08_hlle_loop_table.
 
 (* the HLLE routine as a whole (sqrt-free executable form): Ok T -> T assembles the property's matrix *)
 Theorem C08_hlle_model_correct :
